@@ -271,6 +271,7 @@ def run(chk):
     connhdr(chk, repo)
     hunt3_rules(chk, repo)
     hunt4_rules(chk, repo)
+    hunt5_rules(chk, repo)
     round6_rules(chk, repo)
     # ---- eof -----------------------------------------------------------------------------------------------------------------------------
     wb = repo.func(REQ, "ClientRequest._write_bytes")
@@ -439,6 +440,107 @@ def round6_rules(chk, repo):
                     chk.violation(rule, uses[0].ast, K.short(uses[0].ast), f"self.{attr} = <new codec object> between _set_or_restore_start_position() and the use",
                                   f"{ci.name}.{name}() starts a new pass over the stream but can reach self.{attr} without replacing it: codec state (a byte-order mark already written, buffered surrogate halves) of the previous transmission leaks into this one", path=g.fmt_path(pth))
     chk.expect_count(rule, n_attrs, 1, "stateful codec attributes of replayable payload classes")
+
+
+def hunt5_rules(chk, repo):
+    """Rules written after the fifth defect hunt (F316, F320-F322): who owns the request payload, and when it may be sent again."""
+    CL, DG, PL = "aiohttp/client.py", "aiohttp/client_middleware_digest_auth.py", "aiohttp/payload.py"
+    rq = repo.func(CL, "ClientSession._request")
+    # ---- C02.body.owner: the payload is closed when nobody sends it any more -----------------------------------------------------------------------------------
+    loops = [l for l in ast.walk(rq.node) if isinstance(l, ast.While)]
+    end = max((getattr(l, "end_lineno", l.lineno) for l in loops), default=0)
+    late = [c for c in prog.calls_in(rq.node) if norm.raw(c.func) == "req._body.close" and c.lineno > end and not list(prog.enclosing(c, (ast.ExceptHandler,)))]
+    if not late:
+        chk.analysis_error("C02.body.owner: the close of the request payload after the redirect loop was not found in ClientSession._request")
+    for c in late:
+        u = list(PC.units(PC.pc(K.stmt_of(c), raw=True)))
+        defs = norm.fn_defs(rq.node)
+        def idle_writer(l):
+            if not l.pos:
+                return False
+            t = l.text
+            if t in ("req._writer is None", "req._writer_task is None"):
+                return True
+            if t.endswith(" is None") and t[:-8].isidentifier():
+                return any(v is not None and norm.raw(v) in ("req._writer", "req._writer_task") for _d, v in defs.defs.get(t[:-8], []))
+            return False
+        if any(idle_writer(l) for l in u):
+            chk.ok("C02.body.owner", c, "_request(): the payload is closed at once only when no writer task is running; otherwise the writer's completion closes it")
+        else:
+            chk.violation("C02.body.owner", c, K.short(c), "if req._writer is None: await req._body.close()  else: close it from the writer's done-callback",
+                          "the payload is closed as soon as the response head arrives, while _write_bytes() may still be uploading it: `session.post(url, data=open(path, 'rb'))` with a 20 MB file against an echo handler (prepare() first, then reads the body) has its file closed under the writer after 260 KB - the rest is never sent, the server waits for the body, the client for the response; the same data as BytesIO round-trips")
+    # ---- C02.upload.fail: a body that fails after the response head was taken is reported to whoever reads the response ---------------------------------------------
+    wb = repo.func(REQ, "ClientRequest._write_bytes")
+    nh = 0
+    for t in [t for t in ast.walk(wb.node) if isinstance(t, ast.Try)]:
+        for h in t.handlers:
+            ty = PC.handler_types(h)
+            if not (set(ty) & {"OSError", "Exception"}) or not M.contains(h, "set_exception(protocol, ...)"):
+                continue
+            nh += 1
+            fails_body = any(isinstance(c, ast.Call) and (norm.raw(c.func) == "self._fail_response_body" or (norm.raw(c.func) == "set_exception" and c.args and "_payload" in norm.raw(c.args[0]))) for c in ast.walk(h))
+            if fails_body:
+                chk.ok("C02.upload.fail", h, f"_write_bytes(): `except {'/'.join(ty)}` fails the response body that is being read as well, and ends the connection")
+            else:
+                chk.violation("C02.upload.fail", h, f"except {'/'.join(ty)}", "self._fail_response_body(conn, exc, cause)  next to set_exception(protocol, ...)",
+                              "set_exception(protocol, ...) only fails the queue of response heads; once the head was taken nobody looks at it again: an async-generator body that raises 0.3 s into the upload, against a handler that has sent its head already, never fails resp.read() - the connection stays open and both sides hang until the total timeout")
+    chk.expect_count("C02.upload.fail", nh, 2, "handlers of _write_bytes() that report a failed upload")
+    fb = repo.func_opt(REQ, "ClientRequest._fail_response_body")
+    if fb is not None:
+        if M.contains(fb.node, "conn.close()") and any(norm.raw(c.func) == "set_exception" for c in prog.calls_in(fb.node)):
+            chk.ok("C02.upload.fail", fb, "_fail_response_body(): the exception is set on the unfinished body and the connection is closed (the peer does not wait for the rest of the request)")
+        else:
+            chk.violation("C02.upload.fail", fb, "_fail_response_body", "set_exception(body, ...); conn.close()", "the failed upload is not reported to the reader of the response body, or the connection stays open")
+    # ---- C02.resend.quiesce: a payload is sent again only when the writer of the previous attempt has come to rest --------------------------------------------------
+    # The writer task of an attempt that was answered early (307/308, 401) is cancelled; its executor read cannot be interrupted and goes on
+    # moving the file position under the next attempt.  Both re-send sites wait for the old writer; the executor read is waited for on cancel.
+    sites = []
+    g = cfg_of(rq.node)
+    red_rel = [n for n in g.nodes if n.in_finally_copy is None and n.kind == "stmt" and K.node_has(n, "resp.release()") and list(prog.enclosing(n.ast, (ast.While,)))]
+    conts = [n for n in g.nodes if n.kind == "stmt" and isinstance(n.ast, ast.Continue)]
+    quiet = [n for n in g.nodes if n.kind == "stmt" and isinstance(getattr(n, "ast", None), ast.AST) and K.node_has(n, "await req._close()")]
+    red_rel = sorted(red_rel, key=lambda n: n.ast.lineno)[:1]  # the release that ends the answered attempt (a second one precedes `continue`)
+    sites.append(("ClientSession._request (redirect)", g, red_rel, conts, quiet))
+    dc = repo.func(DG, "DigestAuthMiddleware.__call__")
+    gd = cfg_of(dc.node)
+    d_rel = [n for n in gd.nodes if n.kind == "stmt" and K.node_has(n, "response.release()")]
+    d_next = [n for n in gd.nodes if n.in_finally_copy is None and n.kind == "stmt" and K.node_has(n, "await handler(request)") and list(prog.enclosing(n.ast, (ast.For, ast.While)))]
+    d_quiet = [n for n in gd.nodes if n.kind == "stmt" and isinstance(getattr(n, "ast", None), ast.AST) and K.node_has(n, "await request._close()")]
+    sites.append(("DigestAuthMiddleware.__call__ (retry)", gd, d_rel, d_next, d_quiet))
+    for what, gg, starts, targets, via in sites:
+        if not starts or not targets:
+            chk.analysis_error(f"C02.resend.quiesce: release / re-send statements not found in {what}")
+            continue
+        p_ = gg.find_path(starts, lambda n: n in targets, lambda n: n in via, EXPLICIT)
+        if p_ is None and via:
+            chk.ok("C02.resend.quiesce", via[0].ast, f"{what}: the writer of the answered attempt is awaited (req._close()) before the same payload is sent again")
+        else:
+            chk.violation("C02.resend.quiesce", starts[0].ast, K.short(starts[0].ast), "await req._close()  after the release, before the next attempt",
+                          f"{what} re-sends the payload while the cancelled writer of the first attempt may still be inside an executor read: a file upload answered early by 307 is sent again with the stale read running between the second attempt's seek(0) and its read - /second receives 537856 of 800000 bytes starting in the middle and answers 200 (with a Content-Length the request hangs)", path=gg.fmt_path(p_) if p_ else None)
+    iop = repo.cls(PL, "IOBasePayload")
+    ex = [(name, c) for name, fn in iop.methods.items() for c in prog.calls_in(fn.node) if isinstance(c.func, ast.Attribute) and c.func.attr == "run_in_executor" and name in ("write_with_length", "_finish_read", "write")]
+    for name, c in ex:
+        fn = iop.methods[name]
+        shielded = any(norm.raw(x.func) == "asyncio.shield" for x in prog.calls_in(fn.node))
+        waits = any(any(t in ("asyncio.CancelledError", "BaseException") for t in PC.handler_types(h)) and any(isinstance(a, ast.Await) for a in ast.walk(h)) for t_ in ast.walk(fn.node) if isinstance(t_, ast.Try) for h in t_.handlers)
+        if shielded and waits:
+            chk.ok("C02.resend.quiesce", c, f"IOBasePayload.{name}(): the executor read is shielded and, when the writer is cancelled, waited for before the cancellation goes on")
+        else:
+            chk.violation("C02.resend.quiesce", c, K.short(c), "job = loop.run_in_executor(...); try: await asyncio.shield(job) except CancelledError: await asyncio.wait((job,)); raise",
+                          f"IOBasePayload.{name}() abandons its executor read when the writer task is cancelled: the read goes on in its thread and moves the file position under whoever sends the payload next")
+    chk.expect_count("C02.resend.quiesce", len(ex), 1, "executor reads of IOBasePayload's write path")
+    # ---- C02.retry.consumed: a request whose body cannot be replayed is not sent a second time -----------------------------------------------------------------------
+    tests = [n for n in gd.nodes if n.kind == "test" and ".consumed" in norm.raw(n.ast)]
+    if d_next:
+        loopn = next((l for l in prog.enclosing(d_next[0].ast, (ast.For,))), None)
+        lv = {x.id for x in ast.walk(loopn.target) if isinstance(x, ast.Name)} if loopn is not None else set()
+        last_iteration = K.last_iteration_edges(gd, lv, d_rel, d_next)
+        p3 = K.find_path_edges(gd, d_next, lambda n: n in d_next, lambda n: n in tests, last_iteration, EXPLICIT)
+        if tests and p3 is None:
+            chk.ok("C02.retry.consumed", tests[0].ast, "DigestAuthMiddleware: the retry is attempted only when the request body has not been consumed (the 401 is returned otherwise)")
+        else:
+            chk.violation("C02.retry.consumed", d_next[0].ast, K.short(d_next[0].ast), "if request.body.consumed: break   before the retry",
+                          "`POST data=<async generator>` through DigestAuthMiddleware against a qop=auth challenge: the generator was consumed by the unauthenticated attempt, the authenticated retry goes out chunked with only the terminator - the handler sees ('authenticated', 0 bytes) and answers 200, no error on either side (the 307 path raises ClientPayloadError in the same situation)", path=gd.fmt_path(p3) if p3 else None)
 
 
 def hunt4_rules(chk, repo):
